@@ -339,6 +339,12 @@ impl obs::Global for Hook {
         if let Some(p) = g.threads[me].held.iter().rposition(|&(a, m)| a == addr && m == mode) {
             g.threads[me].held.remove(p);
         }
+        drop(g);
+        // releasing a lock is a scheduling point too: what a thread does between a release and its
+        // next acquisition (loading a shared length, say) can then be separated from what came before
+        if !std::thread::panicking() {
+            let _ = s.park(me, Status::AtPoint(format!("released {}({})", class_name(addr), mode_s(mode))));
+        }
     }
 }
 
